@@ -4,6 +4,8 @@ projection of the connection after each callback.  The model must accept the lab
 the same projections / observations."""
 from __future__ import annotations
 
+from .privnames import priv, has_priv
+
 import asyncio
 
 from . import simnet
@@ -137,6 +139,7 @@ class Trace:
         self.fut_cid = {}
         self.next_cid = 0
         self.user_cbs = {}
+        self.removers = {}
         self.injected = {}        # function object -> label
         self.problems = []
         self.cur_label = None
@@ -171,9 +174,9 @@ class Trace:
                     kind, ty2, u2 = act
                     cls = self._cls(ty2)
                     if kind == "sub":
-                        self.conn._add_message_callback_without_remove(self.user_cb(u2), (cls,))
-                    else:
-                        self.conn._remove_message_callback(self.user_cb(u2), (cls,))
+                        self.removers[(u2, ty2)] = self.conn.add_message_callback(self.user_cb(u2), (cls,))
+                    elif (u2, ty2) in self.removers:
+                        self.removers[(u2, ty2)]()
             self.user_cbs[u] = cb
         return self.user_cbs[u]
 
@@ -189,23 +192,28 @@ class Trace:
         cs = {S.INITIALIZED: "INIT", S.SOCKET_OPENED: "SOCK", S.HANDSHAKE_COMPLETE: "HS", S.CONNECTED: "CONN", S.CLOSED: "CLOSED"}[c.connection_state]
         u = lambda t: "-" if t is None else str(round((t.when() - simnet.CLOCK_BASE) * 1024))
         hs = []
-        for cls, handlers in c._message_handlers.items():
+        for cls, handlers in priv(c, "_message_handlers").items():
             ty = simnet.msg_type_id(cls)
             for h in handlers:
-                hs.append(f"{ty}.{self._hname(h)}")
-        f = c._fatal_exception
+                hs.append(f"{ty}.{self._hname(h, ty)}")
+        f = priv(c, "_fatal_exception")
         pend = lambda fut: "P" if fut is not None and not fut.done() else "-"
         # private flags no predicate reads (they are only compared with the model): a rename masks the component, it does not break the tie
-        opt = lambda name: "?" if not hasattr(c, name) else str(int(getattr(c, name)))  # noqa: E731
-        optf = lambda name: "?" if not hasattr(c, name) else pend(getattr(c, name))  # noqa: E731
-        return (f"{cs},{int(c.is_connected)}{int(c._handshake_complete)},f={'-' if f is None else exc_name(f)},x={opt('_expected_disconnect')},"
-                f"pp={opt('_send_pending_ping')},ping={u(c._ping_timer)},pong={u(c._pong_timer)},sf={optf('_start_connect_future')},"
-                f"ff={optf('_finish_connect_future')},h={int(c._frame_helper is not None)},s={int(c._socket is not None)},"
-                f"w={len(c._read_exception_futures)},os={int(c.on_stop is not None)},H={'+'.join(sorted(hs))}")
+        opt = lambda name: "?" if not has_priv(c, name) else str(int(priv(c, name)))  # noqa: E731
+        optf = lambda name: "?" if not has_priv(c, name) else pend(priv(c, name))  # noqa: E731
+        hc = int(priv(c, "_handshake_complete"))
+        ping, pong = u(priv(c, "_ping_timer")), u(priv(c, "_pong_timer"))
+        hp, sk, nw = int(priv(c, "_frame_helper") is not None), int(priv(c, "_socket") is not None), len(priv(c, "_read_exception_futures"))
+        return (f"{cs},{int(c.is_connected)}{hc},f={'-' if f is None else exc_name(f)},x={opt('_expected_disconnect')},"
+                f"pp={opt('_send_pending_ping')},ping={ping},pong={pong},sf={optf('_start_connect_future')},"
+                f"ff={optf('_finish_connect_future')},h={hp},s={sk},"
+                f"w={nw},os={int(c.on_stop is not None)},H={'+'.join(sorted(hs))}")
 
-    def _hname(self, h):
-        f = getattr(h, "__func__", None)
+    def _hname(self, h, ty=None):
         name = getattr(h, "__name__", "")
+        if getattr(h, "__self__", None) is self.conn and ty in (DISC_REQ, PING_REQ, TIME_REQ):
+            # the connection's own responders, whatever they are called
+            return {DISC_REQ: "disc", PING_REQ: "ping", TIME_REQ: "time"}[ty]
         if name == "_handle_disconnect_request_internal":
             return "disc"
         if name == "_handle_ping_request_internal":
@@ -242,15 +250,24 @@ class Trace:
             label = "@injected"
         else:
             name = getattr(cb, "__qualname__", "") or getattr(getattr(cb, "func", None), "__qualname__", "")
+            # the connection's own timers are recognised by what they are (the handle the connection holds, a timer whose
+            # argument is a future the connection waits on), not by the names of the functions behind them
+            is_timer = isinstance(handle, asyncio.TimerHandle)
+            own = self.conn is not None and owner is self.conn
+            fut_arg = args[0] if len(args) == 1 and isinstance(args[0], asyncio.Future) else None
             if name.endswith("_Interrupt._on_interrupt"):
                 label = "intr:" + ("s" if self.tasks.get(owner._task) == "S" else "f")
+            elif is_timer and own and handle is priv(self.conn, "_ping_timer"):
+                label = "timer:ping"
+            elif is_timer and own and handle is priv(self.conn, "_pong_timer"):
+                label = "timer:pong"
             elif name.endswith("_async_send_keep_alive"):
                 label = "timer:ping"
             elif name.endswith("_async_pong_not_received"):
                 label = "timer:pong"
-            elif name.endswith("handle_timeout"):
+            elif name.endswith("handle_timeout") or (is_timer and fut_arg is not None and owner is None
+                                                     and getattr(cb, "__module__", "").startswith("aioesphomeapi")):
                 fut = args[0]
-                fh = self.conn._frame_helper
                 if fut in self.fut_cid:
                     label = f"timer:c{self.fut_cid[fut]}"
                 else:
@@ -280,7 +297,7 @@ class Trace:
         if label in ("@driver", "@injected"):
             label = self.cur_action_label or "silent"
         # new request futures get their call ids in creation order
-        new = [f for f in self.conn._read_exception_futures if f not in self.fut_cid]
+        new = [f for f in priv(self.conn, "_read_exception_futures") if f not in self.fut_cid]
         for f in new:
             self.fut_cid[f] = self.next_cid
             self.next_cid += 1
@@ -374,12 +391,11 @@ class Trace:
                     t.cancel()
             return "cancel:" + a[1]
         if k == "sub":
-            c._add_message_callback_without_remove(self.user_cb(a[2]), (self._cls(a[1]),))
+            self.removers[(a[2], a[1])] = c.add_message_callback(self.user_cb(a[2]), (self._cls(a[1]),))
             return f"sub:{a[1]}:{a[2]}"
         if k == "unsub":
-            cls = self._cls(a[1])
-            if cls in c._message_handlers:
-                c._remove_message_callback(self.user_cb(a[2]), (cls,))
+            if (a[2], a[1]) in self.removers:
+                self.removers[(a[2], a[1])]()
             return f"unsub:{a[1]}:{a[2]}"
         if k in ("resolved", "tcp"):
             want = "resolve" if k == "resolved" else "tcp"
